@@ -434,7 +434,10 @@ def run_session(ctx, si, rng):
     tmp = ctx.path('.session')
     os.mkdir(tmp)
     tfiles = {'tf_A.txt': [[1, 2, 'EINS', 'XA'], [2, 1, 'ZWEI', 'XB']],
-              'tf_B.txt': [[1, 1, 'ONE', 'YA'], [1, 3, 'THREE', 'YB']]}
+              'tf_B.txt': [[1, 1, 'ONE', 'YA'], [1, 3, 'THREE', 'YB']],
+              # refused: the same position twice
+              'tf_C.txt': [[1, 2, 'DOPPELT', 'ZA'], [1, 2, 'NOCHMAL', 'ZB'],
+                           [2, 1, 'ZWEI', 'ZC']]}
     pool = [make_op(rng, 'p%d' % i, tfiles) for i in range(10)]
     for op in list(pool):
         t = twin_of(op, rng)
@@ -522,7 +525,8 @@ def run_session(ctx, si, rng):
                                        str(alone)[:300]))
             import zlib
             observers = ('terminals', 'numbering', 'analysis', 'extract',
-                         'transitions', 'navigation', 'labels')
+                         'transitions', 'navigation', 'labels', 'bracketstry',
+                         'bracketstry')
             for pre in ('export', 'tigerxml', observers[zlib.crc32(
                     repr(sorted(op.items(), key=str)).encode('utf-8'))
                     % len(observers)]):
